@@ -396,6 +396,37 @@ func TestVerifC11Child(t *testing.T) {
 			}
 			return ""
 		})
+		// the same, in lockstep at every synchronisation point of the handshake and of the connection manager, whatever
+		// they are: of several handshakes of one key each has done a step before any does the next, so a check and the
+		// registration it guards are interleaved unless they are one critical section
+		for _, n := range []int{2, 3} {
+			n := n
+			vRegScenario(r, fmt.Sprintf("same-key-in-lockstep/%d", n), []int{0, 1}, func(w *vRegWorld) string {
+				verifrt.Lockstep([]string{"Server.wshandler#", "connectionsManager.", "Server.ensureSingleClientConnection#"}, n, 150*time.Millisecond)
+				var wg sync.WaitGroup
+				for i := 0; i < n; i++ {
+					wg.Add(1)
+					go func() { defer wg.Done(); w.dial(0) }()
+				}
+				wg.Wait()
+				verifrt.Lockstep(nil, 0, 0)
+				time.Sleep(100 * time.Millisecond)
+				// however many of them got through the handshake: at most one of their sockets is still served
+				w.mu.Lock()
+				conns := append([]*websocket.Conn(nil), w.conns...)
+				w.mu.Unlock()
+				served := 0
+				for _, c := range conns {
+					if vProbeWait(c, 700*time.Millisecond) == "served" {
+						served++
+					}
+				}
+				if served > 1 || w.ls.S.OpenConnections() > 1 {
+					return fmt.Sprintf("two-sessions-of-one-key/served=%d open=%d", served, w.ls.S.OpenConnections())
+				}
+				return ""
+			})
+		}
 		// the key is revoked while its handshake sits between the certificate check and the registration
 		for _, at := range []string{vLCheck, vLRegRLock} {
 			at := at
@@ -551,6 +582,36 @@ func TestVerifC11Child(t *testing.T) {
 			}
 			return ""
 		})
+		// the first key of a list of three is taken off by passing list[1:] of the slice the server was created with:
+		// the two others stay listed, registered and served
+		vRegScenario(r, "revoke-the-first-of-three", []int{0, 1, 2}, func(w *vRegWorld) string {
+			conns := map[int]*websocket.Conn{}
+			for _, k := range []int{0, 1, 2} {
+				c, err := w.dial(k)
+				if err != nil {
+					return "handshake-failed"
+				}
+				conns[k] = c
+			}
+			if !vWaitUntil(3*time.Second, func() bool { return w.ls.S.OpenConnections() == 3 }) {
+				return "handshake-failed/not-registered"
+			}
+			if err := w.update([]int{1, 2}); err != nil {
+				return "update-failed/" + err.Error()
+			}
+			if n := w.ls.S.OpenConnections(); n != 2 {
+				return fmt.Sprintf("bystander-disturbed-by-revocation/open=%d want=2", n)
+			}
+			for _, k := range []int{1, 2} {
+				if !w.listed(k) || vProbeWait(conns[k], 3*time.Second) != "served" {
+					return fmt.Sprintf("bystander-disturbed-by-revocation/k%d", k)
+				}
+			}
+			if w.listed(0) || vServed(conns[0]) {
+				return "revoked-session-still-served/k0"
+			}
+			return ""
+		})
 		// key rotation: an update of equal or larger length that takes the key of a connected peer off the list
 		type rot struct {
 			name    string
@@ -590,6 +651,22 @@ func TestVerifC11Child(t *testing.T) {
 				// right after the update has returned
 				if n := w.ls.S.OpenConnections(); n != len(rc.stay) {
 					return fmt.Sprintf("revoked-session-still-listed-after-update/open=%d want=%d update=%v", n, len(rc.stay), to)
+				}
+				// a revoked peer which does not care about the close frame it was sent (it does not read) and goes on
+				// sending: a moment after the update has returned none of its requests reaches a handler any more
+				time.Sleep(150 * time.Millisecond)
+				w.ls.Impl.take()
+				for _, k := range rc.revoked {
+					conns[k].SetWriteDeadline(time.Now().Add(time.Second))
+					_ = conns[k].WriteMessage(websocket.BinaryMessage, vSizedRequest(100, fmt.Sprintf("00000000-0000-4000-8000-%012d", 777000+k)))
+				}
+				time.Sleep(250 * time.Millisecond)
+				for _, h := range w.ls.Impl.take() {
+					for _, k := range rc.revoked {
+						if h.Peer == w.keys[k].Static().String() {
+							return fmt.Sprintf("revoked-session-still-served/request-sent-after-the-update-reached-a-handler/k%d update=%v", k, to)
+						}
+					}
 				}
 				for _, k := range rc.revoked {
 					if w.listed(k) {
